@@ -242,7 +242,8 @@ def run_check(check_id, tier, seed, replay=None, limit=None):
 
     # ---- report
     wall = time.time() - t0
-    replay_dir = os.path.join(env.VERIF, "replays")
+    validation = "VERIF_REPO" in os.environ  # runs against a scratch copy never touch the real evidence / replays
+    replay_dir = os.path.join(env.VERIF, "scratch", "validation-replays") if validation else os.path.join(env.VERIF, "replays")
     vio_lines = []
     if agg.violations:
         os.makedirs(replay_dir, exist_ok=True)
@@ -291,7 +292,9 @@ def run_check(check_id, tier, seed, replay=None, limit=None):
         "violations": len(agg.violations),
     }
     if not replay:
-        ev_path = os.path.join(env.VERIF, "evidence", f"{check_id}.json")
+        ev_dir = os.path.join(env.VERIF, "scratch", "validation-evidence") if validation else os.path.join(env.VERIF, "evidence")
+        os.makedirs(ev_dir, exist_ok=True)
+        ev_path = os.path.join(ev_dir, f"{check_id}.json")
         tmp = ev_path + ".tmp"
         with open(tmp, "w") as f:
             json.dump(evidence, f, indent=1, default=str, sort_keys=True)
